@@ -15,6 +15,8 @@ def run(tier: str, seed: int):
         rule = ('all DAG shapes n<=4 x requested subsets x pre-cached subsets (batch<=2); n<=3 x placements x '
                 'duplication (shared vs fresh equal instances, same task requested twice / nested) x types x request variants')
         e3c = (list(F.fam_e3(F.fam_shapes(1, 3), workers=(2,), liveness=False)) + list(F.fam_e3(F.fam_variants(2), workers=(2,), liveness=False))
+               # an earlier call through the same backend object was aborted by a failure
+               + list(F.fam_e3([c for c in F.fam_shapes(2, 2, pre=False) if len(c.requested) == c.spec.n], workers=(1, 2), liveness=False, prelude=True))
                # a task whose worker dies is not quietly executed a second time
                + list(F.fam_e3(F.fam_faults(1, 3, max_faults=1, reqs='sinks', kinds=('died',), cofs=(True,)), workers=(1, 2), liveness=False)))
     else:
